@@ -60,7 +60,7 @@ func ZZ_C16_GitNode() {
 
 // ZZ_C16_Snippet: rendering the source snippet of a decode error never panics,
 // for every file length, with or without trailing newline, and every position
-// inside the file (line 0 = unknown).
+// (line 0 = unknown; possibly beyond the end).
 func ZZ_C16_Snippet() {
 	n := zz.Choose("nlines", 7)
 	trailing := zz.Bool("trailing_newline")
@@ -68,9 +68,10 @@ func ZZ_C16_Snippet() {
 	if !trailing && n > 0 {
 		src = src[:len(src)-1]
 	}
-	line := zz.Choose("line", 8)
+	// the position comes from the YAML decoder, which also counts "\r" and other
+	// line terminators: it may lie beyond the number of "\n"-separated lines
+	line := zz.Choose("line", 10)
 	col := zz.Choose("column", 5)
-	zz.Assume(line <= n)
 	pad := zz.Choose("padding", 4)
 	s := NewSnippet([]byte(src), WithLine(line), WithColumn(col), WithPadding(pad))
 	_ = s.String()
